@@ -159,6 +159,20 @@ let dispatch (fn : Stdlib.String.t) (args : v list) : v =
   | "htmldiff", [o; n; rules; ms] ->
       let (c, ((comb, ins), del)) = htmldiff (to_el o) (to_el n) (to_rules rules) (to_n ms) in
       L [of_nat c.change_count; of_nat c.deletions_count; of_nat c.insertions_count; of_str comb; of_str ins; of_str del]
+  | "links_html", [title; ins; del; entries] ->
+      let to_z (x : v) : z = (match x with I 0 -> Z0 | I k when k > 0 -> Zpos (pos_of_int k) | I k -> Zneg (pos_of_int (- k)) | _ -> bad "z") in
+      let to_dmp = to_list (to_pair to_z to_str) in
+      let to_hentry (x : v) : hentry = (match x with
+        | L [I 100; td; hd; o; n] -> EChanged (to_dmp td, to_dmp hd, to_str o, to_str n)
+        | L [c; t; h] -> EPlain (to_z c, to_str t, to_str h)
+        | _ -> bad "hentry") in
+      of_str (links_html (to_str title) (to_str ins) (to_str del) (to_list to_hentry entries))
+  | "html_lex", [s] ->
+      let of_attrs = of_list (of_pair of_str of_str) in
+      let of_tok (t : tok) : v = (match t with
+        | TText s -> L [I 0; of_str s] | TDecl s -> L [I 1; of_str s] | TStart (n, a) -> L [I 2; of_str n; of_attrs a]
+        | TVoid (n, a) -> L [I 3; of_str n; of_attrs a] | TEnd n -> L [I 4; of_str n]) in
+      of_list of_tok (clean (lex (to_str s)))
   | "url_eq", [rules; a; b] -> of_bool (url_eq (to_rules rules) (to_str a) (to_str b))
   | "token_opcodes", [o; n; rules; ms] ->
       let ops = token_opcodes (to_rules rules) (prepare (to_el o) (to_n ms)) (prepare (to_el n) (to_n ms)) in
